@@ -5,6 +5,8 @@ import (
 	"go/token"
 	"go/types"
 	"math/big"
+	"os"
+	"path/filepath"
 	"sort"
 	"strings"
 
@@ -136,17 +138,35 @@ type FuncVC struct {
 	usedContracts map[string]bool
 	usedLemmas    map[string]bool
 	noDefine      bool
+	exactAll      bool
+	qdepth        int
+	splitTerm     string
+	callOrd       map[string]int
+	firedGhosts   map[*GhostClause]bool
+	marked        map[string]bool
+	pendingMarks  []string
+	defs          map[string]string // named definitions (for canonical keys)
+	loadCache     map[string]cacheEnt
+	predIdx       map[string]int
+}
+
+type cacheEnt struct {
+	name string
+	at   int
 }
 
 type Gen struct {
-	P         *Program
-	CS        *ContractSet
-	tags      map[string]int
-	tagNames  []string
-	Prelude   string
-	ConvUF    string
-	ConvExact string
-	MaxInl    int
+	P           *Program
+	CS          *ContractSet
+	tags        map[string]int
+	tagNames    []string
+	Prelude     string
+	PreludePost string
+	ConvUF      string
+	ConvExact   string
+	PopUF       string
+	PopExact    string
+	MaxInl      int
 }
 
 func (g *Gen) tagOf(t types.Type) int {
@@ -183,7 +203,16 @@ func (f *FuncVC) declareFun(name, sig string) {
 	f.decls = append(f.decls, fmt.Sprintf("(declare-fun %s %s)", name, sig))
 }
 
-func (f *FuncVC) emit(cmd string) { f.cmds = append(f.cmds, cmd) }
+func (f *FuncVC) emit(cmd string) {
+	if len(f.pendingMarks) > 0 && !f.noDefine {
+		ms := f.pendingMarks
+		f.pendingMarks = nil
+		for _, m := range ms {
+			f.cmds = append(f.cmds, "(assert (inst! "+m+"))")
+		}
+	}
+	f.cmds = append(f.cmds, cmd)
+}
 
 func (f *FuncVC) assume(t string) {
 	if t == "true" {
@@ -206,7 +235,37 @@ func (f *FuncVC) define(prefix, sort, term string) string {
 	}
 	n := f.fresh(prefix)
 	f.emit(fmt.Sprintf("(define-fun %s () %s %s)", n, sort, term))
+	f.defs[n] = term
 	return n
+}
+
+// canon expands all named definitions in a term (used as a canonical cache key).
+func (f *FuncVC) canon(term string) string {
+	if len(f.defs) == 0 {
+		return term
+	}
+	var b strings.Builder
+	i := 0
+	for i < len(term) {
+		c := term[i]
+		if c == '(' || c == ')' || c == ' ' {
+			b.WriteByte(c)
+			i++
+			continue
+		}
+		j := i
+		for j < len(term) && term[j] != '(' && term[j] != ')' && term[j] != ' ' {
+			j++
+		}
+		tok := term[i:j]
+		if d, ok := f.defs[tok]; ok {
+			b.WriteString(f.canon(d))
+		} else {
+			b.WriteString(tok)
+		}
+		i = j
+	}
+	return b.String()
 }
 
 func (f *FuncVC) freshConst(prefix, sort string) string {
@@ -475,8 +534,16 @@ func (f *FuncVC) namedLoad(st *State, v Val, t types.Type, hint string) Val {
 		if f.noDefine {
 			return v
 		}
+		if ce, ok := f.loadCache[v.T]; ok {
+			v.T = ce.name
+			return v
+		}
+		raw := v.T
 		v.T = f.define("ld."+hint, sortOf(v.K, v.W), v.T)
 		f.assume(f.typeInv(st, v, t))
+		if v.T != raw {
+			f.loadCache[raw] = cacheEnt{v.T, len(f.cmds)}
+		}
 	case KBad, KStruct, KArrayVal:
 		f.unsupportedf("load of type %s", t)
 	}
@@ -659,7 +726,7 @@ func (f *FuncVC) mergeVals(conds []string, vs []Val, hint string) Val {
 		return out
 	}
 	for _, v := range vs {
-		if v.K != first.K || v.W != first.W {
+		if v.K != first.K || (v.K == KBV && v.W != first.W) {
 			return Val{K: KBad}
 		}
 	}
@@ -746,3 +813,76 @@ func (f *FuncVC) mergeStates(conds []string, sts []*State, hint string) *State {
 }
 
 var bigZero = new(big.Int)
+
+func (g *Gen) preludeText(exactConv, exactPop bool) string {
+	var b strings.Builder
+	b.WriteString(g.Prelude)
+	if exactPop {
+		b.WriteString(g.PopExact)
+	} else {
+		b.WriteString(g.PopUF)
+	}
+	if exactConv {
+		b.WriteString(g.ConvExact)
+	} else {
+		b.WriteString(g.ConvUF)
+	}
+	b.WriteString(g.PreludePost)
+	return b.String()
+}
+
+func (g *Gen) loadPreludes(dir string) error {
+	rd := func(name string) (string, error) {
+		b, err := os.ReadFile(filepath.Join(dir, name))
+		return string(b), err
+	}
+	var err error
+	if g.Prelude, err = rd("prelude.smt2"); err != nil {
+		return err
+	}
+	if g.PreludePost, err = rd("prelude_post.smt2"); err != nil {
+		return err
+	}
+	if g.ConvUF, err = rd("conv_uf.smt2"); err != nil {
+		return err
+	}
+	if g.ConvExact, err = rd("conv_exact.smt2"); err != nil {
+		return err
+	}
+	if g.PopUF, err = rd("popcnt_uf.smt2"); err != nil {
+		return err
+	}
+	if g.PopExact, err = rd("popcnt_exact.smt2"); err != nil {
+		return err
+	}
+	return nil
+}
+
+// markIndex records that a term is used as an index: quantified facts are instantiated there.
+func (f *FuncVC) markIndex(idx string) {
+	if f.qdepth > 0 || f.noDefine && f.qdepth > 0 {
+		return
+	}
+	if f.marked == nil {
+		f.marked = map[string]bool{}
+	}
+	if strings.Contains(idx, "q.") && strings.Contains(idx, ".d") {
+		return // mentions a bound variable
+	}
+	if f.marked[idx] {
+		return
+	}
+	f.marked[idx] = true
+	f.declareFun("inst!", "(Int) Bool")
+	f.pendingMarks = append(f.pendingMarks, idx)
+	if !f.noDefine {
+		f.flushMarks()
+	}
+}
+
+func (f *FuncVC) flushMarks() {
+	for _, m := range f.pendingMarks {
+		f.emit("(assert (inst! " + m + "))")
+	}
+	f.pendingMarks = nil
+}
